@@ -40,7 +40,7 @@ func (o COp) String() string {
 		}
 		return s + "]"
 	case "create":
-		return fmt.Sprintf("c%d create cache=%v async=%v", o.Client, o.NCfg.Cache, o.NCfg.Async)
+		return fmt.Sprintf("c%d create cache=%v async=%v %s", o.Client, o.NCfg.Cache, o.NCfg.Async, o.Mode)
 	}
 	return fmt.Sprintf("c%d %s lid=%d %s", o.Client, o.K, o.Lid, o.Mode)
 }
@@ -297,6 +297,14 @@ func (c *Conc) do(op COp) string {
 		}
 		return "ok"
 	case "create":
+		if op.Mode == "cycle" {
+			// async off and on again while the flusher and the other clients run
+			off := *op.NCfg
+			off.Async, off.OffStruct = false, op.Lid%2 == 0
+			if err := c.db.Create(rec0(), off.Schema()); err != nil {
+				return "err:" + err.Error()
+			}
+		}
 		if err := c.db.Create(rec0(), op.NCfg.Schema()); err != nil {
 			return "err:" + err.Error()
 		}
@@ -634,6 +642,9 @@ func genConc(r *simrt.Rand, cfg *Config, pools *Pools, heavyReaders, linear bool
 					}
 				}
 				nc.OffStruct = r.Bool()
+				if !linear && nc.Async && r.Chance(1, 2) {
+					op.Mode = "cycle"
+				}
 				op.NCfg = &nc
 			}
 			ops = append(ops, op)
